@@ -139,6 +139,9 @@ func Agreement(model, real *Result) string {
 	all := append([]*Result{model}, model.Alts...)
 	for _, m := range all {
 		if m.R == "fuel" {
+			if real.R == "crash" || real.R == "timeout" {
+				return "agree" // neither returns: the model exhausts its fuel, the implementation its stack / its time
+			}
 			return "model-fuel"
 		}
 		if m.R != "ok" && m.R != "panic" {
